@@ -311,7 +311,8 @@ CLAIMED = {
                 "allowance is antitone in the stored tokens (C08_allowance_antitone_in_tokens) and, for 1 <= q <= 2^30 and cold "
                 "factor / period up to 2^20, always lies between q/c*(1-2^-40) and q*(1+2^-40) (C08_allowance_between_cold_and_full); hence, "
                 "after every history, an entry is admitted only when the window's pass count plus its batch is at most q*(1+2^-40) "
-                "(C08_admitted_within_threshold) and rejected only when it exceeds q/c*(1-2^-40) (C08_blocked_only_above_cold_rate). "
+                "(C08_admitted_within_threshold) and rejected only when it exceeds q/c*(1-2^-40) (C08_blocked_only_above_cold_rate); "
+                "above the warning line a saturated second never lowers the allowance (C08_saturated_second_never_lowers_allowance). "
                 "The trajectory clauses (monotone ramp to q within 2p+2 s, cold after 2p s idle) are an executable predicate "
                 "evaluated on every generated trace of the implementation (Spec/C08Spec.v).",
         "design_ref": "DESIGN.md §6 C08",
